@@ -21,14 +21,14 @@ from rig import common
 
 SPEC_DIR = os.path.join(common.VERIF, "specs", "grow")
 DRV = os.path.join(common.VERIF, "harness", "x02_drv.c")
-WRAPS = "sendto,recvfrom,socket,close,timerfd_create,timerfd_settime,clock_gettime,calloc,free"
+WRAPS = "sendto,recvfrom,socket,close,timerfd_create,timerfd_settime,clock_gettime,calloc,free,setsockopt"
 DROP = {"srv.idle", "skip.cancel", "donemsg", "BadOp"}      # lines that carry no observation of the client
 ASAN_ENV = {"ASAN_OPTIONS": "detect_leaks=0:abort_on_error=0:detect_stack_use_after_return=1",
             "UBSAN_OPTIONS": "print_stacktrace=1:halt_on_error=1"}
 
 # repaired-design configurations: (cfg, workers) ; all invariants of the cfg must hold
-MC_QUICK = ["MC_X02_one.cfg", "MC_X02_two.cfg", "MC_X02_mixed.cfg", "MC_X02_three.cfg", "MC_X02_mrd.cfg", "MC_X02_fixed_q.cfg"]
-MC_THOROUGH = ["MC_X02_one_t.cfg", "MC_X02_two_t.cfg", "MC_X02_mixed_t.cfg", "MC_X02_three_t.cfg", "MC_X02_mrd.cfg", "MC_X02_fixed.cfg"]
+MC_QUICK = ["MC_X02_one.cfg", "MC_X02_two.cfg", "MC_X02_mixed.cfg", "MC_X02_three.cfg", "MC_X02_mrd.cfg", "MC_X02_fixed_q.cfg", "MC_X02_thr2.cfg"]
+MC_THOROUGH = ["MC_X02_one_t.cfg", "MC_X02_two_t.cfg", "MC_X02_mixed_t.cfg", "MC_X02_three_t.cfg", "MC_X02_mrd.cfg", "MC_X02_fixed.cfg", "MC_X02_thr2.cfg"]
 MC_LIVE = ["MC_X02_live.cfg", "MC_X02_live_two.cfg"]
 # sensitivity: deviation -> (cfg, what TLC must report)
 MC_DEV = {
@@ -44,6 +44,7 @@ MC_DEV = {
     "socket-freed-inside-its-receive-callback": ("MC_X02_dev_selffree.cfg", "IMemSafe"),
     "destroy-frees-every-other-socket": ("MC_X02_dev_destroyhalf.cfg", "IDestroyed"),
     "destroy-leaves-timers-of-pending-queries": ("MC_X02_dev_destroytmr.cfg", "IDestroyed"),
+    "socket-buffer-kilobytes-passed-as-bytes": ("MC_X02_dev_bufunits.cfg", "IBufUnits"),
 }
 DEV_WHERE = {
     "reply-not-delivered-to-callback": "radius_client_query_done() (src/proto/radius_client.c:691-695) calls the user callback with query->pkt/query->buf = the REQUEST; the reply is copied only on the never-taken cross-thread path",
@@ -57,6 +58,7 @@ DEV_WHERE = {
     "socket-create-failure-null-deref": "radius_client_socket_alloc() error path calls radius_client_socket_free() before skt->thr is set (radius_client.c:536-580)",
     "socket-freed-inside-its-receive-callback": "radius_client_recv_cb() -> query_done -> unlink_skt -> radius_client_socket_free(skt) frees the socket and its receive task, then recv_cb / tp_task_pkt_rcvr_handler keep using them (radius_client.c:1029-1034)",
     "destroy-frees-every-other-socket": "radius_client_destroy_tpt_msg_cb() (radius_client.c:442-444) iterates i < skt_count while radius_client_socket_free() decrements skt_count",
+    "socket-buffer-kilobytes-passed-as-bytes": "radius_client_socket_alloc() (radius_client.c:541-544) passes skt_snd_buf / skt_rcv_buf, documented and defaulted in kilobytes (256 / 128), to SO_SNDBUF / SO_RCVBUF as bytes: the kernel clamps to its minimum and drops back-to-back replies",
     "destroy-leaves-timers-of-pending-queries": "radius_client_socket_free() (radius_client.c:602-609) completes pending queries without deleting their timers (timerfd leaked, epoll data points into freed memory)",
 }
 
@@ -70,9 +72,9 @@ class Sc:
         self.family = family; self.crashy = crashy
         self.lines = ["pool %d" % nthr, "client %d %d %d" % (smin, smax, nas)]
         self.nsrv = 0; self.q = 0; self.rx = {}; self.rnd = {}
-    def server(self, fam, irt, mult, mrd, mrc, sec=None):
+    def server(self, fam, irt, mult, mrd, mrc, sec=None, mrt=None):
         self.nsrv += 1; k = self.nsrv
-        mrt = irt * mult
+        mrt = mrt if mrt is not None else irt * mult
         self.lines.append("server %d %d %d %d %d %d %d" % (k, fam, irt, mrt, mrd, mrc, sec if sec else k))
         v = irt
         while v <= mrt:
@@ -258,13 +260,18 @@ def sc_sockfail(rng):
     return sc
 
 def sc_jitter(rng):
-    cls = rng.choice(["neg1", "pos1"])
+    cls = rng.choice(["neg1", "pos1", "neg1-cap"])
     sc = Sc("jitter-" + cls)
     irt = rng.randint(10, 40)
-    k = sc.server(4, irt, 2, 0, 3)
-    sc.jitter({irt: cls})
+    if cls == "neg1-cap":          # IRT + IRT exceeds MRT already at the first transmission
+        irt = 2 * rng.randint(6, 20)
+        k = sc.server(4, irt, 1, 0, 3, mrt=irt * 3 // 2)
+        sc.jitter({irt: "neg1"})
+    else:
+        k = sc.server(4, irt, 2, 0, 3)
+        sc.jitter({irt: cls})
     q = sc.query()
-    if cls == "neg1":
+    if cls != "pos1":
         for _ in range(3): sc.srvrx(k)
         sc.add("waitcb %d 10000" % q, "settle")
     else:
@@ -276,7 +283,7 @@ def sc_jitter(rng):
 def sc_mrd(rng):
     sc = Sc("mrd")
     irt = rng.randint(8, 15); mult = rng.choice([2, 4])
-    mrd = rng.randint(irt * 2, irt * 9)
+    mrd = rng.choice([rng.randint(irt * 2, irt * 9), 4 * irt, 8 * irt if mult == 4 else 4 * irt])   # incl. remainders that equal IRT exactly
     k = sc.server(4, irt, mult, mrd, rng.choice([0, 0, 5]))
     sc.jitter()
     q = sc.query()
@@ -310,11 +317,11 @@ def sc_threads(rng):
 def sc_idwrap(rng):
     """more than 256 automatic identifiers in flight: the identifier space of the first socket fills up"""
     sc = Sc("idwrap", smax=2)
-    k = sc.server(4, 120, 1, 0, 1)       # one transmission, long timer: all stay in flight while we fill
+    k = sc.server(4, 120, 1, 0, 3)       # long timer, three transmissions: (nearly) all stay in flight while we fill
     sc.jitter()
     n = 256 + rng.randint(1, 6)
     qs = [sc.query() for _ in range(n)]
-    ns = [sc.srvrx(k) for _ in range(n)]
+    ns = [sc.srvrx(k, 500) for _ in range(n)]
     pick = rng.sample(range(n), 12) + [255, 256, n - 1]
     for i in pick: sc.reply(k, ns[i], "good")
     for q in qs: sc.add("waitcb %d 15000" % q)
@@ -365,6 +372,10 @@ def witnesses():
         "query 1 0 auto 1 1 0", "srvrx 1 3000", "srvrx 1 3000", "srvrx 1 3000", "waitcb 1 10000", "settle", "destroy", "poolstop"]))
     W.append(lit("w-jitter-pos1", ["pool 1", "client 1 2 1", "server 1 4 24 48 0 3 1", "rnd 24:pos1 48:zero",
         "query 1 0 auto 1 1 0", "srvrx 1 3000", "srvrx 1 400", "waitcb 1 1200", "settle", "destroy", "poolstop"]))
+    W.append(lit("w-mrd-boundary", ["pool 1", "client 1 1 1", "server 1 4 10 40 40 0 1", "rnd 10:zero 20:zero 40:zero",
+        "query 1 0 auto 1 1 0", "srvrx 1 3000", "srvrx 1 3000", "srvrx 1 3000", "srvrx 1 400", "waitcb 1 10000", "settle", "destroy", "poolstop"]))
+    W.append(lit("w-jitter-neg1-cap", ["pool 1", "client 1 2 1", "server 1 4 20 30 0 3 1", "rnd 20:neg1 30:zero",
+        "query 1 0 auto 1 1 0", "srvrx 1 3000", "srvrx 1 3000", "srvrx 1 3000", "waitcb 1 10000", "settle", "destroy", "poolstop"]))
     W.append(lit("w-mrd", ["pool 2", "client 1 1 0", "server 1 4 10 40 65 0 1", "rnd 10:zero 20:zero 40:zero",
         "query 1 1 auto 1 1 0", "srvrx 1 3000", "srvrx 1 3000", "srvrx 1 3000", "srvrx 1 3000", "srvrx 1 400", "waitcb 1 10000", "settle",
         "query 2 0 auto 2 1 0 chain=3:0 auto 3 1 0", "srvrx 1 3000", "reply 1 4 good", "waitcb 2 10000", "srvrx 1 3000", "reply 1 5 good",
@@ -482,8 +493,10 @@ def run_traces(ctx, rig, exe, scs, build, seen):
         rc, out, evs = rig.drive(exe, sc.text())
         if not evs or evs[0]["e"] != "pool":
             raise common.Infra("driver produced no trace:\n" + out[-2000:])
+        if any(e["e"] == "rnd" and e.get("found") != 1 for e in evs):
+            ctx.add(scenarios_skipped_jitter_search_failed=1); continue
         runs.append((sc, evs, rc, out))
-    ok = 0; nev = 0
+    ok = 0; nev = 0; scs_run = len(runs)
     def validate_group(group, depth=0):
         nonlocal ok, nev
         if not group: return
@@ -498,7 +511,8 @@ def run_traces(ctx, rig, exe, scs, build, seen):
             sc, evs, rc, out = group[0]
             line = info
             # a bounded wait that expired on a loaded machine is re-tried once before it counts
-            if line < len(evs) and evs[line]["e"] == "Hang" and depth < 50:
+            timing = line < len(evs) and (evs[line]["e"] == "Hang" or (evs[line]["e"] == "settled" and evs[line].get("unread", 0) > 0))
+            if timing and depth < 50:
                 rc2, out2, evs2 = rig.drive(exe, sc.text())
                 acc2, devs2, r2, info2 = rig.validate(evs2)
                 if acc2:
